@@ -129,7 +129,7 @@ CLAIMED.update({
 
 CLAIMED.update({
  "C49": ("exploration", "deterministic simulation with configuration faults (F6): on sampled transactions of seeded histories (economy workload + long metadata keys / values + up to 90 transfers per manifest) one execution limit at a time is lowered; the smallest value under which the transaction still executes identically is located by bisection and the threshold is checked from both sides and by sampled values (monotone), against the receipt's own event counts / sizes and committed value sizes",
-         "For 8 limit kinds (call depth, heap / track bytes, substate key / value size, invoke payload size, event size, event count): one below the located threshold the transaction fails with that limit's error, at and above it the result is identical (never a different success); event-count and event-size thresholds equal what the receipt shows for the execution phase; no committed substate value exceeds the value-size threshold. Log and panic-message limits are not reachable without a logging blueprint and are not covered.",
+         "For 8 limit kinds (call depth, heap / track bytes, substate key / value size, invoke payload size, event size, event count): one below the located threshold the transaction fails with that limit's error, at and above it the result is identical (never a different success); event-count and event-size thresholds equal what the receipt shows for the execution phase; no committed substate value exceeds the value-size threshold; a limit error that reports the offending size must report one that exceeds the limit in force. Log and panic-message limits are not reachable without a logging blueprint and are not covered.",
          LEDGER_NOTE + " Thresholds are located per sampled transaction (2-3 limit kinds each), not for every transaction.", "5 C49"),
 })
 
